@@ -2,13 +2,10 @@
 
     A case is an initial alignment (moltype, class, named gapped strings) and
     a chain of operations.  The annotatable class runs the model of
-    Model/Aligned.v; the array-backed class holds its rows as plain strings
-    and runs the specification of Spec/AlignedSpec.v itself (there is no
-    separate model of the dense matrix: the class is compared with the
-    specification directly).  [OToType] switches class the way
+    Model/Aligned.v, the array-backed class the model of Model/AlignedArr.v.  [OToType] switches class the way
     [to_type(array_align=...)] does (rebuilding from [to_dict()]).
     After every operation the whole state is observed. *)
-From CG3 Require Import Lib.PyZ Lib.Val Lib.PySlice Model.View Model.IndelMap Model.IndelMapFixed Model.Aligned Spec.AlignedSpec.
+From CG3 Require Import Lib.PyZ Lib.Val Lib.PySlice Model.View Model.IndelMap Model.IndelMapFixed Model.Aligned Model.AlignedArr Spec.AlignedSpec.
 
 Inductive astate := SOld (a : oalign) | SArr (k : kind) (a : salign).
 
@@ -33,11 +30,7 @@ Definition step (vr : variant) (st : astate) (o : aop) : res astate :=
   | SOld a, OToType => Ok (SArr (al_kind a) (al_strings a))
   | SArr k a, OToType => bind (al_init k a) (fun a' => Ok (SOld a'))
   | SOld a, _ => bind (al_apply vr a o) (fun a' => Ok (SOld a'))
-  | SArr k a, OTakePos _ true =>
-      (* the same [AlignmentI.take_positions] serves both classes *)
-      if negb (v_negate_ok vr) && nucleic k then Err E_Type
-      else bind (spec_apply k a o) (fun ka => Ok (SArr (fst ka) (snd ka)))
-  | SArr k a, _ => bind (spec_apply k a o) (fun ka => Ok (SArr (fst ka) (snd ka)))
+  | SArr k a, _ => bind (d_apply vr k a o) (fun ka => Ok (SArr (fst ka) (snd ka)))
   end.
 
 (** [indep]: every operation is applied to the initial alignment (exhaustive
@@ -60,6 +53,16 @@ Definition obs_degap (st : astate) : val :=
   | SArr _ a => VL (map (fun nr => VL [VZ (fst nr); VS (filter no_gap_char (snd nr))]) a)
   end.
 
+(** read-only methods of the final alignment: names, len, positions, gap array, gaps per position, is_ragged *)
+Definition vbools (l : list bool) : val := VL (map VB l).
+Definition obs_ro (st : astate) : val :=
+  match st with
+  | SOld a => VL [vlistZ (al_names a); VZ (al_len a); VL (map VS (al_positions a)); VL (map vbools (al_gap_array a));
+                  vlistZ (al_count_gaps_per_pos a); VB (al_is_ragged a)]
+  | SArr _ a => VL [vlistZ (s_names a); VZ (slen a); VL (map VS (s_positions a)); VL (map vbools (s_gap_array a));
+                    vlistZ (s_count_gaps_per_pos a); VB false]
+  end.
+
 (** (variant flags, moltype code, array class?, independent ops?, rows, ops) *)
 Definition case := (list bool * Z * bool * bool * list (Z * list Z) * list aop)%type.
 
@@ -75,5 +78,5 @@ Definition run_case (c : case) : val :=
   | Err e => VE e
   | Ok st =>
       let '(vs, fin) := run_steps vr indep st ops in
-      VL [obs st; VL vs; obs_degap fin]
+      VL [obs st; VL vs; obs_degap fin; obs_ro fin]
   end.
